@@ -126,6 +126,27 @@ func opCommit(rows [][]string, existingParent bool) *crashOp {
 	}
 }
 
+// opCommitSame: the committed data is identical to a table another branch already carries (tables are
+// content-addressed: the ingest writes objects that already exist and other commits depend on).
+func opCommitSame(rows [][]string) *crashOp {
+	op := opCommit(rows, true)
+	inner := op.setup
+	op.name = fmt.Sprintf("commit of a %d-row table that branch 'other' already carries", len(rows))
+	op.setup = func() (*stores.MemStore, *stores.MapRefStore) {
+		db, rs := inner()
+		cfg := &ingestCfg{cols: []string{"k", "v"}, pk: []int{0}, rows: rows, workers: 1, delim: ','}
+		sum, err := ingestOnce(db, cfg, csvBytes(cfg.cols, cfg.rows, ','))
+		if err != nil {
+			panic(err)
+		}
+		if _, err := commitTable(db, rs, "other", sum, nil, 3); err != nil {
+			panic(err)
+		}
+		return db, rs
+	}
+	return op
+}
+
 func opReceive(n int, graphIdx int, maxSize uint64) *crashOp {
 	pool := c12Pool()
 	return &crashOp{
@@ -325,6 +346,8 @@ func c13ops() []*crashOp {
 		opCommit([][]string{{"1", "a"}, {"2", "b"}}, true),
 		opCommit(rows300, true),
 		opCommit(nil, false),
+		opCommitSame([][]string{{"1", "a"}, {"2", "b"}}),
+		opCommitSame(rows300),
 		opReceive(1, 0, 0),
 		opReceive(2, 1, 0),
 		opReceive(2, 1, 1),
@@ -371,7 +394,9 @@ func c13Library(c *mc.Ctx) {
 		}
 		desc += fmt.Sprintf("write #%d returns an error", k)
 		sdb, srs = op.setup()
-		// count only object-store writes for injection (the ref store of this tier is a plain map)
+		// count only object-store writes for injection (the ref store of this tier is a plain map);
+		// the writes of the setup are not the operation's: positions are numbered from the operation's first write
+		sdb.ResetCounters()
 		sdb.FailWriteAt = k
 		err := op.run(sdb, srs)
 		if sdb.Injected > 0 && err == nil {
@@ -761,7 +786,7 @@ func init() {
 	register(&mc.Check{
 		ID:    "C13",
 		Level: "fault_enumeration",
-		Rule: "library tier: for each of 15 operations (commit of 0/2/300-row tables on a new or existing branch; receive of 1..2-commit transfers with several packfile size limits followed by the ref update; prune of five histories with unreachable commits (two with a chain of three unreachable commits); two 3-way merge commits) one uninterrupted run on recording stores yields the durable state after EVERY store write (each write is atomic), " +
+		Rule: "library tier: for each of 17 operations (commit of 0/2/300-row tables on a new or existing branch; commit of a 2- or 300-row table that another branch already carries (every object the ingest writes exists and is depended on); receive of 1..2-commit transfers with several packfile size limits followed by the ref update; prune of five histories with unreachable commits (two with a chain of three unreachable commits); two 3-way merge commits) one uninterrupted run on recording stores yields the durable state after EVERY store write (each write is atomic), " +
 			"and every such crash state, plus an injected error at every object-store write, is checked: every ref resolves, every stored commit has its parents, every table whose object exists is fully usable (structural oracle), branches point at commits whose table exists; then the same operation is re-run on that state and must succeed and end with exactly the refs (for prune: exactly the objects) of the uninterrupted run (thorough: the re-run is itself interrupted after each of its writes, checked, and re-run). " +
 			"cli tier: the real wrgl command path (commit, merge, pull, prune, transaction commit) is run as a subprocess that is killed at the k-th write of the Badger / SQLite stores for every k - before every mutating store method and before every SQL statement inside the ref store's methods (build-time crash hook) - reopened, checked and re-run. evaluations = crash / fault points; distinct by (operation, point)",
 		Assumptions: []string{"a crash is process death between two atomic store writes; torn writes, disk full and fsync reordering inside Badger / SQLite are not modelled", "ingest with more than one worker is covered by C16's schedules, not here"},
